@@ -20,10 +20,12 @@ ASSUMPTIONS = ["every test command carries exactly one NAME <value> pair; argume
 BUDGET = {"quick": {"shards": 8, "examples": 250}, "thorough": {"shards": 16, "examples": 4000}}
 
 
-def strategy(tier):
+def strategy(tier, repeat=None):
     p = G.Profile(kinds={"test", "section", "addtest", "func", "block", "generic", "set"}, max_items=6 if tier == "quick" else 10,
                   depth=3 if tier == "quick" else 4, dangling=False, groups=False, impl_doc=True, dups=2, moddoc=False, body_max=3)
-    return st.fixed_dictionaries({"module": G.module(p), "layout": G.layout_choices(24), "twins": st.sampled_from([True, False, False])})
+    if repeat is not None:
+        p.p_doc_mostly = True
+    return st.fixed_dictionaries({"module": G.module(p, repeat), "layout": G.layout_choices(24), "twins": st.sampled_from([True, False, False])})
 
 
 def with_twins(module):
@@ -50,6 +52,12 @@ def with_twins(module):
         return out
     mod["items"] = rec(mod["items"])
     return mod
+
+
+def extra(ctx):
+    """A few modules of hundreds of items: the drawn item list is tiled 25..45 times, every copy with names of its own."""
+    from .common import large_campaign
+    large_campaign(ctx, strategy("quick", repeat=st.integers(25, 45)), evaluate, 4 if ctx.tier == "quick" else 32)
 
 
 def evaluate(case):
